@@ -24,10 +24,18 @@ ASSUMPTIONS = ["Jinja evaluates the SF-core expression fragment as integer arith
                "not compared (count reported as distribution.unsupported_estimate)"]
 
 
+DIRECTED = [S.stream_var_before_definition, S.stream_var_before_definition, S.stream_once_hidden,
+            S.stream_idle_middle, S.stream_shared_nick_forward, S.stream_once_cluster]
+
+
 def generate(rng, tier):
     n = 450 if tier == "quick" else 12000
     cases = []
     for _ in range(n):
+        if rng.random() < 0.12:      # directed streams (DESIGN.md 11.4)
+            r, feats = rng.choice(DIRECTED)(rng)
+            cases.append({"recipe": r, "reps": rng.choice([2, 3, 3, 4]), "features": feats})
+            continue
         r, feats = S.gen_recipe(rng)
         if rng.random() < 0.25 and S.factor_into_macros(rng, r):
             feats = sorted(set(feats) | {"macro"})
